@@ -8,6 +8,7 @@ import (
 	"os"
 	"time"
 
+	"verif/codec"
 	"verif/hist"
 )
 
@@ -62,15 +63,25 @@ func cmdJob(args []string) {
 		fmt.Fprintln(os.Stderr, "known findings:", err)
 		os.Exit(2)
 	}
-	u, err := hist.FindUniverse(*prop, *tier, *uni)
-	if err != nil {
-		fmt.Fprintln(os.Stderr, err)
-		os.Exit(2)
+	var res *hist.Result
+	switch {
+	case *prop == "C10":
+		res = runC10(*uni, *tier, *deadline)
+	case *prop == "C07":
+		res = codec.Run(*uni, *tier, *deadline)
+	case *prop == "C19":
+		res = runC19(*uni, *tier)
+	default:
+		u, err := hist.FindUniverse(*prop, *tier, *uni)
+		if err != nil {
+			fmt.Fprintln(os.Stderr, err)
+			os.Exit(2)
+		}
+		m := hist.MonitorFor(*prop)
+		cfg := hist.ConfigFor(*prop, *tier)
+		cfg.Deadline = *deadline
+		res = hist.Explore(u, m, cfg)
 	}
-	m := hist.MonitorFor(*prop)
-	cfg := hist.ConfigFor(*prop, *tier)
-	cfg.Deadline = *deadline
-	res := hist.Explore(u, m, cfg)
 	b, _ := json.MarshalIndent(res, "", " ")
 	if *out != "" {
 		os.WriteFile(*out, b, 0o644)
@@ -103,6 +114,28 @@ func cmdReplay(args []string) {
 	if err := json.Unmarshal(b, &v); err != nil {
 		fmt.Fprintln(os.Stderr, err)
 		os.Exit(2)
+	}
+	if v.Property == "C19" {
+		r := runC19(v.Universe, v.Tier)
+		if len(r.Violations) == 0 {
+			fmt.Println("NOT REPRODUCED: trees.go is what the generator produces")
+			os.Exit(0)
+		}
+		fmt.Printf("REPRODUCED C19: %s\n  expected: %s\n  observed: %s\n", r.Violations[0].What, r.Violations[0].Expected, r.Violations[0].Observed)
+		os.Exit(1)
+	}
+	if v.Property == "C07" {
+		r := codec.Run(v.Universe, v.Tier, 0)
+		if len(r.Violations) == 0 {
+			fmt.Println("NOT REPRODUCED: the enumeration passes now")
+			os.Exit(0)
+		}
+		fmt.Printf("REPRODUCED C07: %s\n  expected: %s\n  observed: %s\n", r.Violations[0].What, r.Violations[0].Expected, r.Violations[0].Observed)
+		os.Exit(1)
+	}
+	if v.Property == "C10" {
+		replayC10(&v)
+		return
 	}
 	u, err := hist.FindUniverse(v.Property, v.Tier, v.Universe)
 	if err != nil {
